@@ -1,21 +1,53 @@
 """Runs one property's implementation driver over a JSON list of cases.
-Invoked as a fresh subprocess with PYTHONPATH=/repo:/verif."""
+Invoked as a fresh subprocess with PYTHONPATH=/repo:/verif.
+
+Every case runs under a wall-clock limit and the process under an address-space limit: an
+implementation that loops for ever or allocates without bound is a failing case (reported like an
+unexpected exception), not a hung check."""
 import importlib
 import json
+import os
+import signal
 import sys
 import warnings
 
 warnings.filterwarnings("ignore")
 
+CASE_SECONDS = float(os.environ.get("VERIF_CASE_SECONDS", "10"))
+MEM_BYTES = int(os.environ.get("VERIF_WORKER_MEM", str(6 << 30)))
+
+
+class CaseTimeout(BaseException):
+    pass
+
+
+def _on_alarm(signum, frame):
+    raise CaseTimeout()
+
 
 def main():
     modname, fin, fout = sys.argv[1:4]
+    try:
+        import resource
+        resource.setrlimit(resource.RLIMIT_AS, (MEM_BYTES, MEM_BYTES))
+    except Exception:
+        pass
     mod = importlib.import_module(modname)
     cases = json.load(open(fin))
+    signal.signal(signal.SIGALRM, _on_alarm)
     out = []
     for c in cases:
         try:
-            out.append(mod.run(c))
+            signal.setitimer(signal.ITIMER_REAL, CASE_SECONDS)
+            try:
+                r = mod.run(c)
+            finally:
+                signal.setitimer(signal.ITIMER_REAL, 0)
+            out.append(r)
+        except CaseTimeout:
+            out.append({"__exc__": f"Timeout: the implementation did not return within {CASE_SECONDS:g} s"})
+        except MemoryError:
+            out.append({"__exc__": "MemoryError: the implementation exceeded the worker's memory limit"})
         except Exception as e:  # an exception the driver did not anticipate
             out.append({"__exc__": f"{type(e).__name__}: {e}"[:300]})
     json.dump(out, open(fout, "w"))
